@@ -38,7 +38,7 @@ type c10Op struct {
 func (o c10Op) String() string {
 	switch o.kind {
 	case "root":
-		return fmt.Sprintf("root(%s)", []string{"NewContext", "NewContextWith({})", "NewContextWith({a:1})", "NewContextWith({len:1})"}[o.i])
+		return fmt.Sprintf("root(%s)", []string{"NewContext", "NewContextWith({})", "NewContextWith({a:1})", "NewContextWith({len:1})", "NewContextWith({len:nil})"}[o.i])
 	case "new":
 		return fmt.Sprintf("c%d.New()", o.i)
 	}
@@ -65,6 +65,16 @@ func (m *c10Model) value(i, k int) int {
 
 func (m *c10Model) has(i, k int) bool { return m.value(i, k) != c10Nil }
 
+// bound: some context on the path to the root holds a binding for k (a binding to nil is a binding)
+func (m *c10Model) bound(i, k int) bool {
+	for x := i; x >= 0; x = m.ctxs[x].parent {
+		if m.ctxs[x].vars[k] != c10Unbound {
+			return true
+		}
+	}
+	return false
+}
+
 func (m *c10Model) apply(o c10Op) {
 	switch o.kind {
 	case "root":
@@ -74,16 +84,18 @@ func (m *c10Model) apply(o c10Op) {
 			c.vars[0] = c10One
 		case 3:
 			c.vars[2] = c10One
+		case 4:
+			c.vars[2] = c10Nil
 		}
 		m.ctxs = append(m.ctxs, c)
-		// default helpers injected only when absent
-		if !m.has(0, 2) {
+		// default helpers are injected only under names the user has not bound (a user's nil wins too)
+		if !m.bound(0, 2) {
 			m.ctxs[0].vars[2] = c10Builtin
 		}
 	case "new":
 		m.ctxs = append(m.ctxs, c10Ctx{parent: o.i})
 		n := len(m.ctxs) - 1
-		if !m.has(n, 2) { // lookup is nil in itself and its outer
+		if !m.bound(n, 2) { // the user's binding, also to nil, wins in all descendants
 			m.ctxs[n].vars[2] = c10Builtin
 		}
 	case "set":
@@ -117,6 +129,8 @@ func (im *c10Impl) apply(o c10Op) {
 			im.ctxs = append(im.ctxs, plush.NewContextWith(map[string]interface{}{"a": 1}))
 		case 3:
 			im.ctxs = append(im.ctxs, plush.NewContextWith(map[string]interface{}{"len": 1}))
+		case 4:
+			im.ctxs = append(im.ctxs, plush.NewContextWith(map[string]interface{}{"len": nil}))
 		}
 	case "new":
 		im.ctxs = append(im.ctxs, im.ctxs[o.i].New().(*plush.Context))
@@ -207,7 +221,7 @@ func init() {
 		Shards: func(th bool) []string {
 			// shard = root constructor x first operation
 			var s []string
-			for r := 0; r < 4; r++ {
+			for r := 0; r < 5; r++ {
 				m := &c10Model{}
 				m.apply(c10Op{"root", r, 0, 0})
 				for j := range c10Ops(m, 4) {
@@ -217,7 +231,7 @@ func init() {
 			return s
 		},
 		Run:  c10Run,
-		Rule: "explicit-state breadth-first search over histories of {root constructor in 4 variants (NewContext, NewContextWith {} / {a:1} / {len:1}), ci.New() (<=4 contexts alive), ci.Set(k,v) with k in {a,b,len(built-in helper name)} and v in {1,2,nil}}; every transition calls the real API (successor = shortest history replayed on fresh objects + one operation); states are deduplicated on the reference model's state (parent vector + bindings, contexts numbered in creation order); in EVERY state the complete observation vector (Value and Has of every context x key) of the implementation is compared with the model (nearest binding wins, a binding to nil is a binding, Has = value != nil, built-in helper injected at construction only when absent along the chain). Non-trivial: histories with >=2 contexts or a nil/len binding.",
+		Rule: "explicit-state breadth-first search over histories of {root constructor in 5 variants (NewContext, NewContextWith {} / {a:1} / {len:1} / {len:nil}), ci.New() (<=4 contexts alive), ci.Set(k,v) with k in {a,b,len(built-in helper name)} and v in {1,2,nil}}; every transition calls the real API (successor = shortest history replayed on fresh objects + one operation); states are deduplicated on the reference model's state (parent vector + bindings, contexts numbered in creation order); in EVERY state the complete observation vector (Value and Has of every context x key) of the implementation is compared with the model (nearest binding wins, a binding to nil is a binding, Has = value != nil, built-in helper injected at construction only under a name that is not bound - to anything, nil included - along the chain, so that a user's binding of a helper name wins in that context and all descendants, whenever they are created). Non-trivial: histories with >=2 contexts or a nil/len binding.",
 		Bound: func(th bool) string {
 			if th {
 				return "histories of <=8 operations after the root constructor, <=4 contexts"
